@@ -62,8 +62,9 @@ class DBusProperty:
             instance._dbusProperties = {}
 
         if self.iprop is None:
-            # Force object to set it
-            instance._getProperty('', self.pname)
+            # Force object to set it (looked up under this property's own
+            # interface when known: another interface may declare the name)
+            instance._getProperty(self.interface or '', self.pname)
 
         if self.key is None:
             self.key = self.interface + self.pname
